@@ -26,7 +26,7 @@ fn dispatch(parts: &[&str]) -> String {
         op if op.starts_with("pq.") => ops_pq::run(parts),
         op if op.starts_with("cli.") => ops_cli::run(parts),
         op if op.starts_with("c08.") => ops_c08::run(parts),
-        op if op.starts_with("capi.") || op == "rpu.ops3" || op == "rpu.ops3json" => ops_capi::run(parts),
+        op if op.starts_with("capi.") || op == "rpu.ops3" || op == "rpu.ops3json" || op == "rpu.filelist" => ops_capi::run(parts),
         "rpu.ops" => ops_edit::run(parts),
         op if op.starts_with("file.") => ops_file::run(parts),
         op if op.starts_with("rpu.") || op.starts_with("nalu.") => ops_rpu::run(parts),
